@@ -59,8 +59,9 @@ func (f *frame) instr(in ssa.Instruction) {
 		f.makeSlice(x)
 	case *ssa.MakeMap:
 		f.allocRef(x)
-		// a new map has no entries
+		// a new map has no entries and is private until its reference escapes
 		if mt, ok := x.Type().Underlying().(*types.Map); ok {
+			f.locals = append(f.locals, localAlloc{ref: f.vals[x].term, t: mt})
 			_, _, pk, ps := f.enc.mapHeapKeys(mt)
 			cp := f.enc.heapGet(f.curHeap, pk, ps)
 			empty := fmt.Sprintf("((as const (Array %s Bool)) false)", f.enc.R.sortOf(mt.Key()))
@@ -716,12 +717,19 @@ func (f *frame) typeAssert(x *ssa.TypeAssert) {
 func (f *frame) makeInterface(x *ssa.MakeInterface) {
 	e := f.enc
 	sv := f.get(x.X)
-	if sv.loc != nil {
+	if sv.loc != nil && sv.loc.kind != locCell {
 		bail("address boxed into interface in %s", f.fn.Name())
 	}
 	f.escape(x.X)
 	ctor := e.R.ifaceCtor(x.X.Type())
-	f.defineVal(x, fmt.Sprintf("(%s %s)", ctor, sv.term))
+	term := sv.term
+	if sv.loc != nil {
+		// address of a local variable: the reference of its cell; whoever receives the
+		// interface may write through it
+		term = sv.loc.base
+		e.escapeTerm(SV{term: term})
+	}
+	f.defineVal(x, fmt.Sprintf("(%s %s)", ctor, term))
 }
 
 func (f *frame) convert(x *ssa.Convert) {
